@@ -156,10 +156,32 @@ def _stream(ctx, data, plan, mode, validate, pseed, backend, bparam):
         lb.__enter__()
         ctx.hit("line_budget_runs")
     try:
+        holder = {}
+        nested = []
+
+        def reentrant_handler(err):
+            """A log-mode handler that pulls the next message from the SAME reader (skip-ahead handlers do that)."""
+            r = holder.get("rdr")
+            if r is None or len(nested) > 2 * len(data) + 8:
+                return
+            try:
+                nested.append(1)
+                if pseed % 8 == 0:
+                    next(r)
+                else:
+                    r.read()
+                ctx.hit("reentrant_calls_ok")
+            except (StopIteration,) + tuple(libs):
+                ctx.hit("reentrant_calls_ok")
+            except Exception as e:  # recorded here, never re-raised: the handler itself stays silent
+                holder["foreign"] = f"{type(e).__name__}: {e}"
+
+        handler = reentrant_handler if (mode == 1 and pseed % 4 == 0) else (lambda e: None)
         try:
-            rdr = RTCMReader(stream, validate=validate, quitonerror=mode, errorhandler=(lambda e: None),
+            rdr = RTCMReader(stream, validate=validate, quitonerror=mode, errorhandler=handler,
                              bufsize=bparam.get("bufsize", 4096), encoding=bparam.get("encoding", 0),
                              labelmsm=bparam.get("labelmsm", 1))
+            holder["rdr"] = rdr
         except doubles.BudgetExceeded as e:
             ctx.violation("no-termination", f"constructor: {e}", params)
             return
@@ -217,6 +239,10 @@ def _stream(ctx, data, plan, mode, validate, pseed, backend, bparam):
                     idle += 1
                     if done or idle > len(plan) + len(bparam.get("sizes", ())) + 4:
                         break
+        if holder.get("foreign"):
+            ctx.violation("foreign-exception-reader", f"a call on the reader made from inside its log-mode error handler "
+                          f"raised {holder['foreign']}", params)
+            return
     finally:
         if lb is not None:
             lb.__exit__()
